@@ -549,6 +549,10 @@ func checkC08(p *Prog, r *Report) {
 	// ---- R8.10 relay teardown hook ---------------------------------------------------------------------
 	r.Rule("R8.10", "Closing a relay candidate runs its onClose hook (TURN client and control socket, whose goroutines would otherwise outlive the agent) on every path, whatever the base close returned.", 1)
 	checkRelayCloseHook(p, r)
+
+	// ---- R8.11 exhaustive clean-up / migration loops ----
+	r.Rule("R8.11", "The loops that must treat every element of a collection do so: no early exit, and no path through an iteration that skips the operation (every started candidate's I/O is aborted at close).", 1)
+	checkForAllLoops(p, r, "C08")
 }
 
 // classifyGoroutine decides how the goroutine body terminates.
